@@ -48,40 +48,71 @@ variable {α : Type} [Add α] [Sub α] [Mul α] [LT α] [DecidableLT α] [OfNat 
 def sqDist (a b : List α) : α :=
   (List.zipWith (fun x y => (x - y) * (x - y)) a b).foldl (· + ·) 0
 
-/-- the loop of `closest_centroid`: start from centroid 0, replace on a strictly smaller distance -/
-def closestGo (x : List α) : List (List α) → Nat → Nat × α → Nat × α
+/-- absolute difference written with `<` and `-` only (`(a - b).abs()`) -/
+def absDiff (x y : α) : α := if x < y then y - x else x - y
+
+/-- `L1Dist::rdistance`: sum of absolute differences, accumulated left to right -/
+def l1Dist (a b : List α) : α :=
+  (List.zipWith absDiff a b).foldl (· + ·) 0
+
+/-- the loop of `closest_centroid`: start from centroid 0, replace on a strictly smaller distance.
+`dist` is `dist_fn.rdistance` (the metric of the parameter set: `sqDist` for `L2Dist`, `l1Dist` for
+`L1Dist`). -/
+def closestGo (dist : List α → List α → α) (x : List α) : List (List α) → Nat → Nat × α → Nat × α
   | [], _, best => best
   | c :: cs, idx, best =>
-    let d := sqDist c x
-    closestGo x cs (idx + 1) (if d < best.2 then (idx, d) else best)
+    let d := dist c x
+    closestGo dist x cs (idx + 1) (if d < best.2 then (idx, d) else best)
 
 /-- `closest_centroid(dist_fn, centroids, observation)`; `none` = the panic of `centroids.row(0)`
 on an empty centroid matrix -/
-def closestCentroid (cents : List (List α)) (x : List α) : Option (Nat × α) :=
+def closestCentroid (dist : List α → List α → α) (cents : List (List α)) (x : List α) : Option (Nat × α) :=
   match cents with
   | [] => none
-  | c0 :: _ => some (closestGo x cents 0 (0, sqDist c0 x))
+  | c0 :: _ => some (closestGo dist x cents 0 (0, dist c0 x))
 
 /-- value task `i` computes; the sentinel is never used when `cents ≠ []` and `i < obs.length` -/
-def closestOf (cents : List (List α)) (obs : List (List α)) (i : Nat) : Nat × α :=
-  match closestCentroid cents (obs.getD i []) with
+def closestOf (dist : List α → List α → α) (cents : List (List α)) (obs : List (List α)) (i : Nat) : Nat × α :=
+  match closestCentroid dist cents (obs.getD i []) with
   | some r => r
   | none => (0, 0)
 
 /-- `update_cluster_memberships` under a schedule -/
-def updateMemberships (cents obs : List (List α)) (sched : List Nat) (init : List Nat) : List Nat :=
-  parFor (fun i => (closestOf cents obs i).1) sched init
+def updateMemberships (dist : List α → List α → α) (cents obs : List (List α)) (sched : List Nat)
+    (init : List Nat) : List Nat :=
+  parFor (fun i => (closestOf dist cents obs i).1) sched init
 
 /-- `update_min_dists` under a schedule -/
-def updateMinDists (cents obs : List (List α)) (sched : List Nat) (init : List α) : List α :=
-  parFor (fun i => (closestOf cents obs i).2) sched init
+def updateMinDists (dist : List α → List α → α) (cents obs : List (List α)) (sched : List Nat)
+    (init : List α) : List α :=
+  parFor (fun i => (closestOf dist cents obs i).2) sched init
 
 /-- `update_memberships_and_dists` under a schedule: two zipped output arrays = cells of pairs -/
-def updateBoth (cents obs : List (List α)) (sched : List Nat) (init : List (Nat × α)) : List (Nat × α) :=
-  parFor (fun i => closestOf cents obs i) sched init
+def updateBoth (dist : List α → List α → α) (cents obs : List (List α)) (sched : List Nat)
+    (init : List (Nat × α)) : List (Nat × α) :=
+  parFor (fun i => closestOf dist cents obs i) sched init
+
+/-- the same loop with every task split into its compute / write events (see `parForEvents`) -/
+def updateBothEvents (dist : List α → List α → α) (cents obs : List (List α)) (evs : List Event)
+    (init : List (Nat × α)) : List (Nat × α) :=
+  parForEvents (fun i => closestOf dist cents obs i) evs init
 
 /-- `dists.sum()` after the parallel loop has been joined: a sequential left-to-right reduction -/
 def sumAfterJoin (dists : List α) : α := dists.foldl (· + ·) 0
+
+/-- `counts[c] += 1` over the memberships (`compute_centroids_incremental` on a fresh model whose
+`cluster_count` is zero): how many rows each of the `k` clusters received -/
+def clusterCount (k : Nat) (ms : List Nat) : List Nat :=
+  (List.range k).map fun c => (ms.filter (· == c)).length
+
+/-- the part of `KMeansValidParams::fit_with(None, ds)` (precomputed centroids) that passes through
+the thread pool: `update_memberships_and_dists` under a schedule, then — after the join —
+`model.inertia = dists.sum() / n` (the numerator is returned) and the cluster counts.  The same two
+lines end every restart of `fit` (`let inertia = dists.sum()`). -/
+def fitWithStep (dist : List α → List α → α) (cents obs : List (List α)) (sched : List Nat)
+    (init : List (Nat × α)) : List Nat × α :=
+  let r := updateBoth dist cents obs sched init
+  (clusterCount cents.length (r.map (·.1)), sumAfterJoin (r.map (·.2)))
 
 end KMeans
 
@@ -102,6 +133,17 @@ def fitShared {ρ δ μ : Type} (run : ρ → δ → μ × ρ) (g : ρ) (d : δ)
 def fitSeq {ρ δ μ : Type} (fit : ρ → δ → μ × ρ) : ρ → List δ → List μ
   | _, [] => []
   | g, d :: ds => (fit g d).1 :: fitSeq fit (fit g d).2 ds
+
+/-- a training procedure given by its table: `tbl[g][d]` is the model the procedure returns when
+started in generator state `g` on data set `d` (0 when the table has no such entry); every run
+advances the generator.  The harness fills the table from real fits with fresh parameter objects. -/
+def tableRun (tbl : List (List Nat)) (g : Nat) (d : Nat) : Nat × Nat :=
+  ((tbl.getD g []).getD d 0, g + 1)
+
+/-- the session the harness plays with ONE parameter object: data sets `seq` fitted one after
+another, every fit starting from a clone of the stored generator (state 0) -/
+def fitSession (tbl : List (List Nat)) (seq : List Nat) : List Nat :=
+  fitSeq (fitCloned (tableRun tbl)) 0 seq
 
 /-! ## 3. Folds over hash maps -/
 
@@ -159,6 +201,12 @@ def sortedLabels (cols : List (List κ)) : List κ := sortLabels (labelsOf cols)
 
 /-- `combined_labels(other)` followed by the callers' sort -/
 def sortedCombinedLabels (a b : List (List κ)) : List κ := sortLabels (labelsOf (a ++ b))
+
+/-- `ToConfusionMatrix::confusion_matrix`: `classes = combined_labels(ground_truth); classes.sort();`
+and, for exactly two classes, `classes.reverse()` — the `members` of the matrix -/
+def cmMembers (pred truth : List κ) : List κ :=
+  let s := sortedCombinedLabels [pred] [truth]
+  if s.length = 2 then s.reverse else s
 
 end Labels
 
